@@ -23,6 +23,7 @@ import (
 	"fmt"
 	"net/url"
 	"strings"
+	"time"
 	"unicode/utf8"
 
 	"github.com/amdonov/xmlsig"
@@ -514,6 +515,15 @@ func c04Metadata(c *Ctx) {
 			cf.MetaSigAlg = alg
 			cf.Org = &provider.Organisation{Name: "Org " + cl.val, DisplayName: cl.val, URL: "https://org.example.com/?q=" + cl.val}
 			cf.Contact = &provider.ContactPerson{ContactType: "technical", Company: cl.val, GivenName: cl.val, SurName: "S", EmailAddress: "a@b.c", TelephoneNumber: cl.val}
+			// the optional root / descriptor attributes of the metadata, varied along with the strings
+			switch len(cl.label) % 4 {
+			case 1:
+				cf.MetaIDP = &provider.MetadataIDPConfig{CacheDuration: "PT5M"}
+			case 2:
+				cf.MetaIDP = &provider.MetadataIDPConfig{ValidUntil: 48 * time.Hour, ErrorURL: "https://idp.example.com/error"}
+			case 3:
+				cf.MetaIDP = &provider.MetadataIDPConfig{CacheDuration: "P1D", ValidUntil: time.Hour, ErrorURL: "https://idp.example.com/e?x=" + cl.label}
+			}
 			st := newStorage()
 			prov, err := newProvider(st, cf)
 			if err != nil {
